@@ -40,7 +40,8 @@ class Call(Expression):
         out += (STATUS, RESULT, POS) << Yield((CALL, func, POS))
 
 
-class KeywordArg:
+class KeywordArg(Expression):
+    # Subclass Expression so that tree visitors reach the argument expression.
     def __init__(self, name, expr):
         self.name = name
         self.expr = expr
